@@ -411,6 +411,41 @@ def constructor_history(part, job):
     part.nstates(len(grids) ** 2)
 
 
+def long_sweep(part, job):
+    """
+    one SHT object, very many point-wise evaluations at DISTINCT polar angles (more than any fixed-size buffer would hold), then
+    every point once more: the second pass must give the same values, and both equal the harmonics reference
+    """
+    from chmpy.shape.sht import SHT
+
+    L, npts = job
+    nc, nr = (L + 1) ** 2, (L + 1) * (L + 2) // 2
+    cc = dense(nc, 0)
+    cr = dense(nr, 1)
+    cr[: L + 1] = cr[: L + 1].real
+    k = np.arange(npts)
+    th = 0.01 + (np.pi - 0.02) * ((k * 0.6180339887498949) % 1.0)
+    ph = (2 * np.pi * ((k * 0.7548776662466927) % 1.0))
+    ref_c = ylm.synth_complex(L, cc, th, ph)
+    ref_r = ylm.synth_real(L, cr, th, ph)
+    s = SHT(L)
+    part.ev()
+    for label, c_, ref in (("complex", cc, ref_c), ("real", cr, ref_r)):
+        first = np.array([complex(s.evaluate_at_points(c_, float(t), float(p))) for t, p in zip(th, ph)])
+        part.tr(npts)
+        second = np.array([complex(s.evaluate_at_points(c_, float(t), float(p))) for t, p in zip(th, ph)])
+        part.tr(npts)
+        case = {"kind": "longsweep", "L": L, "npts": npts}
+        d1 = np.abs(first - ref).max()
+        d2 = np.abs(second - ref).max()
+        if d1 > tol(L) * 50 or d2 > tol(L) * 50:
+            bad = int(np.argmax(np.abs(second - ref) > tol(L) * 50)) if d2 > tol(L) * 50 else int(np.argmax(np.abs(first - ref) > tol(L) * 50))
+            part.fail("long-sweep:%s" % label, "L=%d, %s coefficients: point-wise evaluation of %d distinct points on one object deviates from the harmonics by %.3g in the first pass and %.3g when "
+                      "every point is evaluated once more (first bad index %d)" % (L, label, npts, d1, d2, bad), case)
+        part.outcome(("longsweep", label))
+    part.nstates(1)
+
+
 def run(ctx):
     Lb = 32 if ctx.thorough else 16
     Lpy = 12 if ctx.thorough else 8
@@ -419,6 +454,7 @@ def run(ctx):
     ctx.pmap(check_L, jobs)
     hjobs = [(3, 3), (4, 3 if ctx.thorough else 2), (8, 2)]
     ctx.pmap(object_history, hjobs)
+    ctx.pmap(long_sweep, [(3, 700), (6, 300), (4, 70000 if ctx.thorough else 5000)])
     ctx.pmap(constructor_history, [2, 3, 5, 8, 12] + ([16, 23] if ctx.thorough else []))
     ctx.bounds["object_histories"] = "all sequences of <= 3 calls at L=3 (thorough also L=4) and <= 2 calls at L in {4,8} over 11 methods on one reused SHT object"
     ctx.rule = ("every L in 0..64; for L <= %d every basis vector e_(l,m) and i*e_(l,m) of the complex and of the real (m-major) layout through analysis and "
@@ -432,6 +468,9 @@ def run(ctx):
 
 
 def replay(ctx, case):
+    if case.get("kind") == "longsweep":
+        long_sweep(ctx, (case["L"], case["npts"]))
+        return
     if case.get("kind") == "ctorhist":
         constructor_history(ctx, case["L"])
         return
